@@ -11,7 +11,11 @@ Both front-ends (ndn.appv2.NDNApp, ndn.app.NDNApp) run on the virtual-time loop 
     subset of optional headers; handler calls, bytes on the face and completions of pending Interests must be
     the same, except that the reply of the wrapped run is spec_reply_wire(token, reply of the bare run).
  C. Nack: pending Interests complete with exactly the reason of the envelope (all width boundaries, reason-less
-    header = 0), nothing else completes, no handler runs.
+    header = 0), nothing else completes, no handler runs.  C' (run_nack_table): the same against a populated
+    table -- several Interests under the returned name (1..6, any order, interleaved with entries of the same
+    node that carry another implicit digest, with parents / children / other names, with entries whose caller
+    gives up in the loop turn of the Nack or gave up earlier): ONE envelope completes ALL the waiting Interests
+    it names, and only those.
  D. token echo: 1..5 Interests with distinct tokens (length 0..40, one possibly without), replies in every
     order; every reply is spec_reply_wire(token_i, data_i); the closure model (lp_run) agrees.
  E. codec functions: make_network_nack / parse_lp_packet / parse_network_nack / _put_raw_packet_with_pit_token
@@ -31,7 +35,15 @@ RULE = ('real Interests/Data (make_interest/make_data: plain, parameterised+dige
         'subsets for a few packets) of the 9 optional headers, unknown headers (critical and not) at any position, Nack '
         'headers with reasons at all integer-width boundaries / non-minimal widths / without reason, FragIndex/FragCount, '
         'misordered headers, idle and empty fragments, byte/length mutants and random bytes; tokens of length 0..40; '
-        '1-5 Interests with distinct tokens answered in every order. non-trivial = an envelope with >= 1 header or a '
+        '1-5 Interests with distinct tokens answered in every order.  Nack against a populated table: tables given by a '
+        'word over {named N waiting, named N and given up in the loop turn of the Nack, named N and given up earlier, '
+        'named N + implicit digest a / b, CanBePrefix parent of N, N/x, another name} in expression order -- 1..6 '
+        'Interests under one name, every word of length <= 2 (thorough: 3), sampled words of length 3-7 biased to '
+        'shared names -- and ONE Nack envelope returning the Interest of any entry (every distinct name): exactly the '
+        'waiting Interests with the returned name complete with InterestNack(reason of the envelope), all others '
+        'keep their fate (time out / Canceled), no handler runs, nothing is sent or raised; reasons cycle over the '
+        'width boundaries, reason-less and non-minimal widths, sampled header subsets.  '
+        'non-trivial = an envelope with >= 1 header or a '
         'history with >= 2 events; distinct by (front-end, typ, wire) / history hash')
 ASSUMPTIONS = ['the reception pipeline after the unwrap prologue (packet decoding, PIT, dispatch, validation) is an '
                'abstract function of (state, typ, token, bytes) in the theorems; it is exercised for real in streams B-D',
@@ -672,7 +684,7 @@ def nack_tables(ctx, order, all_subsets):
     for n in range(1, maxlen + 1):
         words += [''.join(t) for t in itertools.product(TABLE_KINDS, repeat=n)]
     sampled = []
-    for _ in range(ctx.n(120, 3000)):
+    for _ in range(ctx.n(120, 1500)):
         n = rng.randint(3, 7)
         # tables in which several entries share the returned name are the point: bias towards S/C/A
         sampled.append(''.join(rng.choice('SSSCCGAABPLO') for _ in range(n)))
@@ -1021,7 +1033,10 @@ def run(ctx):
             if rng.random() < 0.3:
                 plan.append(plan[0][:1] + (77, (), 0))     # a second Nack for an Interest already completed
             run_nacks(ctx, ver, order, n, plan, 'headers')
+    import time
+    t0 = time.time()
     nack_tables(ctx, order, all_subsets)
+    ctx.extra['wall_nack_tables_s'] = round(time.time() - t0, 1)
 
     # ---------------- D: token echo
     def toks(k):
